@@ -71,7 +71,27 @@ def failToVerdict : Fail → Verdict
   | .bug => .panicDig
   | .fuel => .fuel
 
-def engineFuel (st : St) : Nat := 32 * (st.ctors.length + st.decos.length + 2) + 64
+mutual
+/-- nesting depth of a parameter (a plain or group parameter: 1, an object: 1 + its deepest field) -/
+def pdepth : Param → Nat
+  | .single _ _ => 1
+  | .grouped _ _ _ _ => 1
+  | .object _ fs => pdepthL fs + 1
+def pdepthL : List Param → Nat
+  | [] => 0
+  | p :: ps => max (pdepth p) (pdepthL ps)
+end
+
+/-- deepest parameter of the invoked function and of any registered constructor or decorator -/
+def maxDepth (st : St) (ps : List Param) : Nat :=
+  max (pdepthL ps) (max ((st.ctors.map fun c => pdepthL c.params).foldl max 0) ((st.decos.map fun d => pdepthL d.params).foldl max 0))
+
+/-- recursion budget of one Invoke.  Go recurses on its stack; the model's resolver is structurally recursive on
+    this number.  It is *sufficient*: `Proofs/Termination.lean` proves that the resolver never runs out of it
+    (every constructor or decorator whose arguments are being built is marked, a marked node is never entered
+    again, and between two such entries the recursion descends at most `maxDepth + 3` levels). -/
+def engineFuel (st : St) (ps : List Param) : Nat :=
+  (st.ctors.length + st.decos.length + 1) * (maxDepth st ps + 3) + 2
 
 /-- register the graph nodes of the group parameters created by a parse:
     `c.newGraphNode(&pg, pg.orders)` in `s` and all its descendants -/
@@ -258,7 +278,7 @@ def apiInvoke (ctx : Ctx) (fn : Fn) (st : St) (s : Nat) (info : Bool) : St × Op
         match chk with
         | .error v => (w, { v := v })
         | .ok w =>
-          match EM.wrapErr (buildList ctx (engineFuel w) params s) .argsFailed w with
+          match EM.wrapErr (buildList ctx (engineFuel w params) params s) .argsFailed w with
           | (.error f, w) => (w, { v := failToVerdict f, ev := w.log })
           | (.ok args, w) =>
             let inf : Option InfoOut :=
